@@ -36,7 +36,7 @@ Proof. intros A im c c' R. destruct (greach_static im c c' R) as [E _]. rewrite 
    refuses an HS256 token that the same call accepts with its own default registry *)
 Example c20_shared_registry_is_read :
   let w := {| w_keys := repeat kst0 1; w_sets := []; w_rng := 0;
-              w_static := with_regs static0 [{| cr_allowed := Some ["HS384"%string]; cr_strict := true |}] |} in
+              w_static := with_regs static0 [{| cr_allowed := Some ["HS384"%string]; cr_strict := true; cr_verify_all := true |}] |} in
   option_map fst (run_seq ex_im 300 w (compile true ex_im (fun _ _ => 0%nat) (CJws false (KKey 0) None "HS256" (RShared 0) None)))
     = Some (Err (EJose UnsupportedAlgorithmError)) /\
   option_map fst (run_seq ex_im 300 w (compile true ex_im (fun _ _ => 0%nat) (CJws false (KKey 0) None "HS256" (ROwn None) None)))
@@ -282,6 +282,17 @@ Proof.
   split; [exact H | exact (incr_from_nodup _ _ H)].
 Qed.
 
+(* the draws of call (thread) i are disjoint from the draws of call j: an index of the shared
+   random source that one call received is never received by another call, along any schedule
+   (CEK, IV, key-wrap iv, salt, ephemeral key and random pick are all draws of this counter) *)
+Theorem c20_calls_draw_fresh : forall A im sched w (ts : list (prog A)) w' ts' tr i j x,
+  run_sched im sched w ts = (w', ts', tr) ->
+  In x (draws_tid i tr) -> In x (draws_tid j tr) -> i = j.
+Proof.
+  intros A im sched w ts w' ts' tr i j x E. destruct (run_sched_draws im sched w ts w' ts' tr E) as [H _].
+  exact (draws_tid_disjoint tr i j x (incr_from_nodup _ _ H)).
+Qed.
+
 (* non-vacuity of the round-2 hypotheses *)
 Example c20_round2_instance :
   ww ex_im 1 static0 [[0%nat]] (init_world 1 [[0%nat]]) /\ vkey ex_im 1 0 /\
@@ -306,6 +317,7 @@ Print Assumptions c20_interleave_keyset_as_dict.
 Print Assumptions c20_seq_independent_any.
 Print Assumptions c20_seq_independent_det.
 Print Assumptions c20_draws_own.
+Print Assumptions c20_calls_draw_fresh.
 
 Print Assumptions c20_footprint.
 Print Assumptions c20_no_singleton_write.
